@@ -942,7 +942,7 @@ def r44(text):
     args = [a for a in args if a.strip()]
     if len(args) != 2 or re.sub(r"\s+", "", args[0]) != "(range,Arc::clone(&self.inner))":
         return text, 0
-    cm = re.match(r"\s*move\s*\|\s*\(\s*left\s*,\s*inner\s*\)\s*\|\s*async\s*\{", args[1])
+    cm = re.match(r"\s*move\s*\|\s*\(\s*(\w+)\s*,\s*(\w+)\s*\)\s*\|\s*async\s*\{", args[1])
     rest = re.sub(r"\s+", " ", text[c + 1:]).strip()
     if not cm or ".await" in args[1] or not re.fullmatch(r"; let _: &dyn Stream<Item = Result<Self::Data, Self::Error>> = &stream; Box::pin\(stream\) \}", rest):
         return text, 0
@@ -951,6 +951,14 @@ def r44(text):
     toks2 = tokenize(text[b_open:])
     b_close = b_open + toks2[match_close(toks2, 0)].start
     inner = text[b_open + 1:b_close]
+    # the closure's pattern variables are the overlay's parameters `left` and `inner`: rename them if the code calls them otherwise
+    pa, pb = cm.group(1), cm.group(2)
+    if (pa, pb) != ("left", "inner"):
+        if re.search(r"(?<![\w.])(left|inner|v_l_|v_i_)(?!\w)", inner):
+            return text, 0
+        inner = re.sub(r"(?<!\w)(?<![^.]\.)%s(?!\w)" % re.escape(pa), "v_l_", inner)
+        inner = re.sub(r"(?<!\w)(?<![^.]\.)%s(?!\w)" % re.escape(pb), "v_i_", inner)
+        inner = inner.replace("v_l_", "left").replace("v_i_", "inner")
     head_nl = text[:b_open].count("\n")
     tail_nl = text[b_close:].count("\n")
     out = "{" + "\n" * head_nl + inner + "\n" * tail_nl + "}"
